@@ -58,6 +58,10 @@ def run(ctx):
 
     C.check_endian_delegation(ctx, P)
     C.check_reader_rejections(ctx, P, only=("SecretKey", "PublicKey", "Signature"), floor=1)
+    # ... including the curve-tagged key wrapper: the tag written for a curve is the tag read back as that curve
+    from .c18 import _Sub
+
+    C.check_tag_tables(_Sub(ctx, ("E9.tags.u8", "E9.tags.cast", "E9.tags.str")), P)
     R.check_scalar_importer_rejects(ctx, "E4.import-total", P)
     # 3. exit census of the signing path
     roots = [P.fns.get(k) for k in ("SecretKey<C>::sign",)]
